@@ -169,6 +169,54 @@ def record_registration(argv, profile_path, tmp):
     return rec, reg_names, ace.args.profile
 
 
+def rerun_registration(argv, tmp):
+    """Acelyzer(...).run() twice on ONE object over a tiny trace, every register_stage call of the process recorded:
+    returns a description of the difference between the two runs, or None"""
+    import aiu_trace_analyzer.logger as aiulog
+    from aiu_trace_analyzer.core.acelyzer import Acelyzer
+    from aiu_trace_analyzer.core.processing import EventProcessor
+    p = os.path.join(tmp, "tiny.json")
+    with open(p, "w") as fh:
+        json.dump([{"ph": "X", "name": "hostop", "pid": 0, "tid": 1, "ts": 10.0, "dur": 2.0, "args": {"uid": 1}},
+                   {"ph": "X", "name": "hostop2", "pid": 0, "tid": 1, "ts": 20.0, "dur": 2.0, "args": {"uid": 2}}], fh)
+    rec = []
+    orig = EventProcessor.register_stage
+
+    def logged(self, callback, context=None, **kwargs):
+        before = len(self.stages)
+        r = orig(self, callback, context, **kwargs)
+        rec.append((callback.__name__, len(self.stages) > before))
+        return r
+    saved = sys.argv
+    sys.argv = ["acelyzer"]
+    EventProcessor.register_stage = logged
+    try:
+        import contextlib
+        import io
+        with contextlib.redirect_stdout(io.StringIO()):
+            ace = Acelyzer(["-i", p, "-o", os.path.join(tmp, "rerun_out.json"), "-D", "0", *argv])
+            aiulog.loglevel = -1
+            runs = []
+            for _k in range(2):
+                del rec[:]
+                try:
+                    ace.run()
+                except Exception as e:  # noqa: BLE001
+                    return f"run {_k + 1} of the same object raised {type(e).__name__}: {str(e)[:120]}"
+                runs.append(list(rec))
+    except SystemExit:
+        return None
+    finally:
+        EventProcessor.register_stage = orig
+        sys.argv = saved
+    if runs[0] != runs[1]:
+        a = [n for n, ok in runs[0] if ok]
+        b = [n for n, ok in runs[1] if ok]
+        return (f"switches {argv}: the first run of the object registered {len(a)} stages, its second run {len(b)} "
+                f"(first difference: {next(((x, y) for x, y in zip(runs[0], runs[1]) if x != y), (len(runs[0]), len(runs[1])))})")
+    return None
+
+
 def e2e_oracle(case, rec, reg_names, sites, prof_flags):
     """returns (classifier, desc) or None. `prof_flags`: flag per site index of the profile in force."""
     # a call whose callback is chosen under a condition yields several sites with one line: map by (name, line)
@@ -310,6 +358,7 @@ def run(ctx: Ctx):
             a = rng.randrange(nk)
             profs.append(("disabled-set", list(range(a, min(nk, a + rng.randint(2, 8))))))
             profs.append(("disabled-set", sorted(rng.sample(range(nk), rng.randint(2, 12)))))
+            requests_default = None
             for which, k in profs:
                 case = {"kind": "e2e", "argv": argv, "profile": which, "k": k}
                 if sites is None:
@@ -318,6 +367,18 @@ def run(ctx: Ctx):
                 if rec is None:
                     ctx.count("cli_rejected")
                     continue
+                # which stages the command line REQUESTS is a matter of the switches alone: the sequence of
+                # register_stage calls must be the same under every profile
+                req = [(n, ln) for (n, ln, _) in rec]
+                if which == "default":
+                    requests_default = req
+                elif requests_default is not None and req != requests_default and "--tb" not in argv:
+                    miss = [x for x in requests_default if x not in req]
+                    extra = [x for x in req if x not in requests_default]
+                    ctx.violation("request-depends-on-profile",
+                                  f"switches {argv}: under profile {which}{'' if k is None else ' ' + str(k)} the stages requested "
+                                  f"differ from those requested under the default profile (not requested: {miss[:4]}, "
+                                  f"additionally requested: {extra[:4]})", case)
                 line2idx = {s["line"]: i for i, s in reversed(list(enumerate(sites)))}
                 nl2idx = {(s["name"], s["line"]): i for i, s in reversed(list(enumerate(sites)))}
                 idxs = [nl2idx.get((n, ln), line2idx.get(ln)) for (n, ln, _) in rec]
@@ -343,6 +404,14 @@ def run(ctx: Ctx):
                 ctx.count("e2e_registrations", len(rec))
                 ctx.count(f"e2e_profile_{which}")
                 ctx.case_done(case, key=(tuple(argv), which, tuple(k) if isinstance(k, list) else k), nontrivial=0 < reached_cond < total_cond)
+        # the same Acelyzer object run twice (documented API): the second run registers what the first one did
+        for argv in ([], ["--flow"], ["--tb"], ["--keep_prep", "-t"])[:ctx.n(3, 4)]:
+            v = rerun_registration(argv, tmp)
+            case = {"kind": "rerun", "argv": argv}
+            if v:
+                ctx.violation("rerun-registers-differently", v, case)
+            ctx.count("rerun_cases")
+            ctx.case_done(case, key=("rerun", tuple(argv)), nontrivial=True)
     finally:
         shutil.rmtree(tmp, ignore_errors=True)
     if ctx.search_mode or not ctx.driver or not ctx.driver.ok:
